@@ -23,10 +23,13 @@ func mvar(n string) *model.Leaf {
 	return &model.Leaf{Kind: machine.KVar, Name: n, Src: "var(" + n + ")"}
 }
 
+// constants used by the context in which case values are constant expressions
+const c03Consts = "const KV = 10\nconst KW = 7\n"
+
 const (
 	c03Bodies     = 9
 	c03BodiesLoop = 10
-	c03Contexts   = 7
+	c03Contexts   = 8
 )
 
 // c03Body builds body kind b for entry i. pre collects statements that must be
@@ -93,8 +96,25 @@ func c03Program(n, defPos int, bodies []int, ctx int) *model.Script {
 		body = append(pre, outer, mcmd("zz"))
 	case 5:
 		body = append(append([]model.Stmt{mcmd("a")}, pre...), sw)
-	default:
+	case 6:
 		body = append(pre, model.Stmt{Kind: model.SWhileInf, Body: []model.Stmt{sw}})
+	default:
+		// case values written as constant expressions (the file defines const KV = 10): KV, KV + 1, ( KV ) * 2, ...
+		for i := range sw.Cases {
+			cs := &sw.Cases[i]
+			if cs.Default {
+				continue
+			}
+			switch cs.Val % 3 {
+			case 1:
+				cs.Src, cs.Val = fmt.Sprintf("KV + %d", cs.Val), 10+cs.Val
+			case 2:
+				cs.Src, cs.Val = fmt.Sprintf("( KV ) * %d", cs.Val), 10*cs.Val
+			default:
+				cs.Src, cs.Val = fmt.Sprintf("%d + KV + KW", cs.Val), cs.Val+10+7
+			}
+		}
+		body = append(append([]model.Stmt{mcmd("a")}, pre...), sw, mcmd("z"))
 	}
 	return &model.Script{Name: "S", Body: body}
 }
@@ -175,7 +195,7 @@ func runC03(tier string) int {
 			}
 			sc := c03Program(n, defPos, bodies, ctx)
 			scripts := []*model.Script{sc}
-			src := model.Print(scripts)
+			src := c03Consts + model.Print(scripts)
 			r.Add("programs", 1)
 			for _, opt := range []bool{true, false} {
 				ok, rej, st, v, out := checkScripts(scripts, src, opt, machine.Lazy, nil)
@@ -197,7 +217,7 @@ func runC03(tier string) int {
 						Replay:  cc,
 						Recheck: func() bool {
 							sc2 := c03Program(n, defPos, bodies, ctx)
-							_, _, _, v2, _ := checkScripts([]*model.Script{sc2}, model.Print([]*model.Script{sc2}), opt, machine.Lazy, nil)
+							_, _, _, v2, _ := checkScripts([]*model.Script{sc2}, c03Consts+model.Print([]*model.Script{sc2}), opt, machine.Lazy, nil)
 							return v2 != nil
 						},
 					})
@@ -219,5 +239,5 @@ func runC03(tier string) int {
 	r.Assume("reference switch rule: a body-less entry shares the next entry that has a body; trailing body-less entries go to the statement after the switch; default runs iff no case value matches; bodies never fall through; break leaves the switch",
 		"var domain = every case value, its neighbours and 0 (always contains a non-matching value)")
 	return r.Finish(r.Get("evaluations"), r.Get("nontrivial"),
-		"every case list of length n (default at any position or absent) x every assignment of bodies from a 10-body alphabet (empty, cmd, cmd+break, break+dead tail, if-break, while-with-break, nested switch, labelled body with goto into it, cmd+end, if-continue in loops; reduced alphabet at n>=5) x 7 contexts (alone, first/middle/last, in while, in do-while, in another switch, in infinite while) x optimize on/off; non-trivial = >= 2 entries and >= 3 distinct observable events")
+		"every case list of length n (default at any position or absent) x every assignment of bodies from a 10-body alphabet (empty, cmd, cmd+break, break+dead tail, if-break, while-with-break, nested switch, labelled body with goto into it, cmd+end, if-continue in loops; reduced alphabet at n>=5) x 8 contexts (alone, first/middle/last, in while, in do-while, in another switch, in infinite while, with case values written as constant expressions) x optimize on/off; non-trivial = >= 2 entries and >= 3 distinct observable events")
 }
